@@ -148,6 +148,40 @@ static void big_case(uint64_t idx)
     free(in); free(out); free(tw); free(exp_);
 }
 
+/* twin mode, large refused requests: a byte count above 64 KiB that is not a whole number of blocks must be refused before
+   anything is written - the output buffer (separate or in place) keeps its contents and later results are unaffected */
+static void ragged_big(uint64_t idx, const vh_cipher *c, vh_rng *r)
+{
+    static uint8_t in[400000], out[400000], tw[400000], ref[64], got[64];
+    int be, nbe = maxbe[c->id] + 1;
+    for (be = 0; be < nbe; ++be) {
+        vh_handle h; uint8_t key[16]; size_t n = 65536 + (size_t)vh_below(r, 300000), k; int ret, ret2, inplace = (int)vh_below(r, 2), dec = c->par_decrypt && vh_below(r, 2); char key_[200]; const char *bad = NULL;
+        n = n / c->bb * c->bb + 1 + vh_below(r, c->bb - 1);            /* ragged */
+        memset(&h, 0, sizeof(h)); vh_set_cap(be);
+        vh_rand_bytes(r, key, 16); vh_rand_bytes(r, in, 4096); for (k = 4096; k < n; ++k) in[k] = (uint8_t)(in[k - 4096] + 3);
+        memset(out, 0xEE, n); vh_rand_bytes(r, tw, 64); for (k = 64; k < n; ++k) tw[k] = (uint8_t)(tw[k - 64] ^ (k >> 6));
+        snprintf(key_, sizeof(key_), "%s:%s-parallel:%s:large-ragged-request", prop, c->name, vh_backend_names[be]); vh_set_crash_key(key_);
+        vh_call_begin("parallel large ragged request");
+        c->par_init(&h); c->par_set_key(&h, key, 16, 7, MANTIS_ENCRYPT);
+        c->par_encrypt(ref, in, tw, 4 * c->bb, &h);
+        if (inplace) { memcpy(out, in, n); ret = (dec ? c->par_decrypt : c->par_encrypt)(out, out, tw, n, &h); }
+        else ret = (dec ? c->par_decrypt : c->par_encrypt)(out, in, tw, n, &h);
+        ret2 = c->par_encrypt(got, in, tw, 4 * c->bb, &h);
+        c->par_cleanup(&h);
+        vh_call_end();
+        VH_COUNT("large_ragged_requests_checked", 1);
+        if (ret != 0) bad = "returned-nonzero";
+        else if (!ret2 || memcmp(got, ref, 4 * c->bb)) bad = "later-results-changed";
+        else for (k = 0; k < n; ++k) if (out[k] != (inplace ? in[k] : 0xEE)) { bad = "rejected-call-wrote-to-the-output-buffer"; break; }
+        if (bad) {
+            char k2[260], d[200];
+            snprintf(k2, sizeof(k2), "%s:%s-parallel:%s:%s:size-not-multiple-of-block(large):%s", prop, c->name, vh_backend_names[be], dec ? "decrypt" : "encrypt", bad);
+            snprintf(d, sizeof(d), "{\"bytes\":%lu,\"in_place\":%d,\"ret\":%d,\"driver\":\"drv_par\",\"mode\":\"twin\",\"case\":%llu}", (unsigned long)n, inplace, ret, (unsigned long long)idx);
+            vh_violation(k2, d, d);
+        }
+    }
+}
+
 static void one_case(uint64_t idx)
 {
     vh_rng r;
@@ -164,6 +198,7 @@ static void one_case(uint64_t idx)
         snprintf(pfx, sizeof(pfx), "%s:%s-parallel", prop, c->name);
         vh_case_begin(idx, pfx, d.p); sb_free(&d);
     }
+    if (!strcmp(vh_arg_mode, "twin") && idx % 40 == 9) { ragged_big(idx, c, &r); return; }
     if (!strcmp(vh_arg_mode, "model") && idx < nstruct) { gen_structured(&H, c, idx / CIPH_N, &r); VH_COUNT("structured_cases", 1); }
     else phist_gen(&H, c, &r, g);
     VH_COUNT("histories", 1); VH_COUNT("ops", H.n);
@@ -190,6 +225,7 @@ static void one_case(uint64_t idx)
             if (T[be].backend != be) { report(c->name, be, "backend-not-pinned", idx, &H, -1, NULL, NULL); continue; }
             { static char cn[3][3][48]; if (!cn[c->id][be][0]) snprintf(cn[c->id][be], 48, "runs_%s_%s", c->name, vh_backend_names[be]); *vh_counter_ref(cn[c->id][be]) += 1; }
             if (T[be].canary_damage) report(c->name, be, "canary-damaged", idx, &H, T[be].canary_damage - 1, &T[be], NULL);
+            if (T[be].rejected_wrote) report(c->name, be, "rejected-call-wrote-to-the-output-buffer", idx, &H, T[be].rejected_wrote - 1, &T[be], NULL);
             opi = ctrans_diff(H.ops, H.n, &T[be], &TS, 1, &what);
             if (opi >= 0) report(c->name, be, what == 0 ? "return-value" : "differs-from-single-block-functions", idx, &H, opi, &T[be], &TS);
             opi = ctrans_diff(H.ops, H.n, &T[be], &TM, 1, &what);
@@ -202,6 +238,7 @@ static void one_case(uint64_t idx)
             phist_run(&H, &T[be], pfx);
             if (T[be].backend >= 0 && T[be].backend != be) report(c->name, be, "backend-not-pinned", idx, &H, -1, NULL, NULL);
             if (T[be].canary_damage) report(c->name, be, "canary-damaged", idx, &H, T[be].canary_damage - 1, &T[be], NULL);
+            if (T[be].rejected_wrote) report(c->name, be, "rejected-call-wrote-to-the-output-buffer", idx, &H, T[be].rejected_wrote - 1, &T[be], NULL);
         }
         VH_COUNT("backend_pairs_compared", nbe - 1);
         for (be = 1; be < nbe; ++be) {
@@ -219,6 +256,7 @@ static void one_case(uint64_t idx)
             phist_run(&H, &T[0], pfx);
             phist_run(&H2, &T2, pfx);
             if (T[0].canary_damage) report(c->name, be, "canary-damaged", idx, &H, T[0].canary_damage - 1, &T[0], NULL);
+            if (T[0].rejected_wrote) report(c->name, be, "rejected-call-wrote-to-the-output-buffer", idx, &H, T[0].rejected_wrote - 1, &T[0], NULL);
             for (i = 0; i < H.n; ++i) {
                 const cop *o = &H.ops[i];
                 char cls[128];
